@@ -29,8 +29,9 @@ def table_for(prog, A, fids, effect_pred, write_pred=None):
             gs = sorted(guards.guard_set(b, S, ev[6]))
             rows.append([eff, gs])
         if rows:
-            rows.sort(key=lambda r: (r[0], r[1]))
-            out[mir.strip_generics(fid)] = rows
+            key = re.sub(r"\{closure#\d+\}", "{closure}", mir.strip_generics(fid))     # closure numbering is positional
+            out.setdefault(key, []).extend(rows)
+            out[key].sort(key=lambda r: (r[0], r[1]))
     return out
 
 
@@ -156,3 +157,27 @@ def var_desc(b, fz, pl):
                     if p2 is not None and 1 <= p2["l"] <= b.argc:
                         inits.add("arg%d" % p2["l"])
     return "local:%s{%s}" % (b.locals[l]["ty"], ",".join(sorted(inits)))
+
+
+def ordering_rows(prog, A, fid):
+    """rows of a comparator (a function or closure returning std::cmp::Ordering): the constants it returns and the comparisons it
+    delegates to (with their operands), each with its control predicates"""
+    b = prog.bodies.get(fid)
+    if b is None or not b.locals or "Ordering" not in b.locals[0]["ty"]:
+        return []
+    S = A.summary(fid)
+    rows = []
+    for bi, blk in enumerate(b.blocks):
+        if blk["cleanup"]:
+            continue
+        for s in blk["s"]:
+            if s["k"] == "assign" and s["p"]["l"] == 0 and not s["p"]["p"]:
+                rv = s["rv"]
+                val = rv["a"]["k"] if rv["r"] == "use" and "k" in rv["a"] else (rv.get("v") if rv["r"] == "agg" else None)
+                if val is not None:
+                    rows.append(["return %s" % val, sorted(guards.guard_set(b, S, bi))])
+    for ev in S.events:
+        if ev[0] == "call" and ev[3] == fid and re.search(r"(::cmp|::partial_cmp|::total_cmp|Ordering::then|Ordering::then_with|Ordering::reverse)$", mir.strip_generics(ev[1])):
+            rows.append(["%s(%s)" % ("::".join(mir.strip_generics(ev[1]).split("::")[-2:]), ", ".join(guards.fmt_terms(a, limit=2) for a in (ev[2] or [])[:2])), sorted(guards.guard_set(b, S, ev[6]))])
+    rows.sort(key=lambda r: (r[0], r[1]))
+    return rows
